@@ -257,6 +257,13 @@ Definition rebuild_rows (cols : list name) (ps : list part) : list row :=
    flush_table_buffer (table.next_partition_id()).  The ids whose files are to be deleted are
    recorded in t_dead. *)
 
+(* the sites at which the guarded run stops instead of executing compaction:
+   KF1 - a column that is NULL in every row of one merged partition and not in another (open
+         finding F1: the NULLs are not carried over);
+   KF3 - the name set compaction iterates over (Table.column_names) does not cover the columns the
+         merged rows carry (rows would lose cells).  This was reachable through finding F3 (fixed
+         by 647a26b); for histories of well-formed requests it is now proved unreachable
+         (Props/C13.v: C13_compaction_carries_all), the guard is kept for arbitrary histories. *)
 Inductive known := KF1 | KF3.
 
 Inductive tres (A : Type) :=
